@@ -45,8 +45,9 @@ DOCS = ["a", "*a* `b`", "> q", "- l", "[x](y)", "![i](j)", "|a|\n|-|", "[r]\n\n[
         "```js a=1\nz\n```\n",
         # block nesting exactly at the lowered limit (maxNesting 6): the result differs for maxNesting 5 and for 7
         "> > > > > a\n\n> > > > > > b\n",
-        # emphasis and strong emphasis that span links and images (delimiter stacks saved and restored around them)
-        "*a [b](c) d* **e ![f *g*](h) i**"]
+        # emphasis and strong emphasis that span links and images (delimiter stacks saved and restored around them),
+        # titles in all three places that take one (helpers that return a result object)
+        "*a [b](c \"t\") d* **e ![f *g*](h 'u') i** [r]\n\n[r]: /v (w)\nx"]
 # many distinct destinations in one call (bounded memo tables, eviction) - long, so only explored in windows
 MANY_A = "".join(f"<http://h.x/a{i}> " for i in range(135)) + "\n"
 MANY_B = "".join(f"[l](/b{i}) " for i in range(135)) + "\n"
